@@ -4,7 +4,7 @@ ASSUMED (theorem T5, textbook): for n samples of a distribution p the empirical 
 Cov f = (diag p - p p^T) / n; schedules are independent.  Given T5, every formula below is a rational identity
 in the true object's variables and the (symbolic, real > 0) sample sizes, with exact tester sets."""
 from qverif.symtwin.verify import E2Contract, eq, true, Raised
-from ._cfg import DIMS
+from ._cfg import DIMS, make_csys, stacked
 from .C03_e2 import n_var, empty_obj
 from .C08_all import build_qt, UNKNOWN
 from .C09_all import exact_testers
@@ -261,3 +261,63 @@ class AnalyticalErrors(E2Contract):
 
     def canary(self, W, cfg, inp, out):
         return [eq("canary", out["mse_empi"], 2 * out["mse_empi"] + 1, "(false) the MSE of the empirical distributions is an affine function of itself")]
+
+
+class SampleMse(E2Contract):
+    """the sample statistics the analytical formulas are compared with: mean squared distance between estimated and true OBJECTS (all parameters,
+    implied ones included) and its sample standard deviation"""
+    name = "data_analysis.calc_mse_qoperations"
+    prop = "C19"
+    targets = ("quara.data_analysis.data_analysis:calc_mse_qoperations", "quara.data_analysis.data_analysis:_calc_mse_linear_analytical_mode_qoperation")
+    frame = True
+    max_paths = 8
+    n_conformance = 1
+
+    def configs(self, tier):
+        return [(k, f) for k in ("state", "povm", "gate", "mprocess") for f in (True, False)]
+
+    def inputs(self, W, cfg, mk):
+        kind, on_para = cfg
+        c_sys = make_csys(W, "1q")
+        tmpl = empty_obj(W, kind, c_sys, 2, on_para)
+        nv = n_var(kind, 2, 2, on_para)
+        np = W.np
+
+        def var(tag, shift):
+            # states / POVMs: every variable symbolic; gates / measurement processes: the first row block and the last variables symbolic,
+            # the rest fixed rationals (the polynomial in 4 x 32 symbols is out of budget)
+            if nv <= 8:
+                return mk.array(tag, nv)
+            free = [0, 1, 5, nv // 2, nv - 2, nv - 1]
+            sym = mk.array(tag, len(free))
+            v = np.array([((3 * k + shift) % 7 - 3) / 8 for k in range(nv)], dtype=np.float64)
+            for j, k in enumerate(free):
+                v[k] = sym[j]
+            return v
+        xs = [tmpl.generate_from_var(var(f"x{i}_", i)) for i in range(3)]
+        y = tmpl.generate_from_var(var("y", 5))
+        return dict(xs=xs, y=y)
+
+    def run(self, W, cfg, inp):
+        da = W.mod("quara.data_analysis.data_analysis")
+        mse, std = da.calc_mse_qoperations(inp["xs"], [inp["y"]] * 3, with_std=True)
+        return dict(mse=mse, std=std, mse_only=da.calc_mse_qoperations(inp["xs"], [inp["y"]] * 3, with_std=False))
+
+    def post(self, W, cfg, inp, out):
+        np = W.np
+        pts = []
+        for x in inp["xs"]:
+            acc = 0
+            for a, b in zip(stacked(W, x), stacked(W, inp["y"])):
+                dlt = np.asarray(a).reshape(-1) - np.asarray(b).reshape(-1)
+                acc = acc + np.dot(dlt, dlt)
+            pts.append(acc)
+        mean = (pts[0] + pts[1] + pts[2]) / 3
+        var = ((pts[0] - mean) ** 2 + (pts[1] - mean) ** 2 + (pts[2] - mean) ** 2) / 2
+        return [eq("mse==mean-squared-distance-of-objects", out["mse"], mean, "mean over the sample of |stacked(estimate) - stacked(true)|^2 (every parameter of the object, implied ones included)"),
+                eq("mse-without-std", out["mse_only"], mean, "the same value when the standard deviation is not requested"),
+                eq("std^2==unbiased-sample-variance", out["std"] * out["std"], var, "standard deviation with ddof = 1"),
+                true("std>=0", out["std"] >= 0, "the standard deviation is non-negative")]
+
+    def canary(self, W, cfg, inp, out):
+        return [eq("canary", out["mse"], 2 * out["mse"] + 1, "(false)")]
